@@ -219,6 +219,136 @@ def _macro_invocation_bindings(repo, locator, ordinal):
     return dict((n, x[0][1]) for n, x in zip(names, args))
 
 
+def _e3d_inline(repo, toks, spec, variants):
+    """Rule E3d: invocations `NAME!(a, b, ..)` of a `macro_rules!` macro of the real file inside a function body are replaced
+    by the macro's arm body, taken from its OWN annotated copy (`minline=NAME:<annot path>[;NAME2:<path>]` on the FN line; the
+    copy's locator must be `<file> :: macro NAME#K :: @arm`, it is erasure-checked / transplanted against /repo like any other
+    item, so a change of the macro is a change of the function).  Shape: the arm's matcher is `( $a:frag, $b:frag, .. )`, every
+    argument of the invocation is a single token, and no argument is an identifier bound by a `let` inside the arm (macro
+    hygiene would keep them apart, textual inlining would not).  `$x` is substituted in the real tokens and in the annotation
+    blocks of the arm.  Anything else raises UnitProblem (exit-2 class).
+    Returns (tokens, log, transplanted?, changes)."""
+    log, changed, changes = [], False, []
+    for ent in spec.split(';'):
+        name, _, apath = ent.partition(':')
+        a = annot.load(os.path.join(CONTRACTS, 'annot', apath))
+        parts = [x.strip() for x in a.locator.split('::')]
+        mac = [x for x in parts[1:] if x.startswith('macro ')]
+        if not mac or parts[-1] != '@arm' or mac[0][6:].partition('#')[0].strip() != name:
+            raise UnitProblem('E3d: %s is not an annotated copy of an arm of macro %s' % (apath, name))
+        ordn = int(mac[0][6:].partition('#')[2] or 0)
+        try:
+            new_real = extract.extract(repo, a.locator)
+            ftoks = extract.file_tokens(repo, parts[0])
+            (ms, me), _ = extract._find_macro_arm(ftoks, 0, len(ftoks), name, ordn)
+        except (extract.ExtractError, rtok.TokError, OSError) as e:
+            raise UnitProblem('E3d: lost macro arm %s: %s' % (a.locator, e))
+        status, atoks, ch = annot.sync(a.toks, new_real)
+        if status == 'lost':
+            raise UnitProblem('E3d: annotation anchors lost for %s' % a.locator)
+        if status != 'clean':
+            changed = True
+            changes += ['%s (macro %s) `%s` -> `%s`' % (tg, name, ' '.join(x[1] for x in o), ' '.join(x[1] for x in n_))
+                        for tg, o, n_ in ch]
+        atoks = annot.select_variant(atoks, variants)
+        matcher = ftoks[ms + 1:me - 1]
+        names, i = [], 0
+        while i < len(matcher):
+            if i + 3 < len(matcher) and matcher[i] == ('p', '$') and matcher[i + 1][0] == 'id' \
+                    and matcher[i + 2] == ('p', ':') and matcher[i + 3][0] == 'id':
+                names.append(matcher[i + 1][1])
+                i += 4
+                if i < len(matcher):
+                    if matcher[i] != ('p', ','):
+                        raise UnitProblem('E3d: unsupported matcher shape of macro ' + name)
+                    i += 1
+                continue
+            raise UnitProblem('E3d: unsupported matcher shape of macro ' + name)
+        binders = set()
+        real = annot.erase(atoks)
+        for q, (k, t) in enumerate(real):
+            if (k, t) == ('id', 'let'):
+                r = q + 1
+                if r < len(real) and real[r] == ('id', 'mut'):
+                    r += 1
+                if r < len(real) and real[r][0] == 'id':
+                    binders.add(real[r][1])
+        out, i, n = [], 0, 0
+        while i < len(toks):
+            if toks[i] == ('id', name) and i + 2 < len(toks) and toks[i + 1] == ('p', '!') and toks[i + 2] == ('p', '('):
+                e = rtok.match_close(toks, i + 2)
+                args, cur = [], []
+                for k, t in toks[i + 3:e]:
+                    if k == 'ann':
+                        raise UnitProblem('E3d: annotation block inside the invocation of ' + name)
+                    if (k, t) == ('p', ','):
+                        args.append(cur)
+                        cur = []
+                    else:
+                        cur.append((k, t))
+                if cur:
+                    args.append(cur)
+                if len(args) != len(names) or any(len(x) != 1 for x in args):
+                    raise UnitProblem('E3d: invocation of %s does not bind %s to single tokens' % (name, names))
+                bind = dict((nm, x[0]) for nm, x in zip(names, args))
+                clash = [x[0][1] for x in args if x[0][0] == 'id' and x[0][1] in binders]
+                if clash:
+                    raise UnitProblem('E3d: argument `%s` of %s! is also bound inside the macro (hygiene)' % (clash[0], name))
+                j = 0
+                while j < len(atoks):
+                    k, t = atoks[j]
+                    if k == 'ann':
+                        def _sub(m):
+                            if m.group(1) not in bind:
+                                raise UnitProblem('E3d: unknown metavariable $%s in an annotation of %s' % (m.group(1), a.locator))
+                            return bind[m.group(1)][1]
+                        out.append(('ann', re.sub(r'\$([A-Za-z_][A-Za-z0-9_]*)', _sub, t)))
+                    elif (k, t) == ('p', '$'):
+                        if j + 1 < len(atoks) and atoks[j + 1][0] == 'id' and atoks[j + 1][1] in bind:
+                            out.append(bind[atoks[j + 1][1]])
+                            j += 1
+                        else:
+                            raise UnitProblem('E3d: unsupported `$` shape in macro arm ' + a.locator)
+                    else:
+                        out.append((k, t))
+                    j += 1
+                n += 1
+                i = e + 1
+                continue
+            out.append(toks[i])
+            i += 1
+        if n == 0:
+            raise UnitProblem('E3d: minline=%s but the function does not invoke %s!' % (name, name))
+        toks = out
+        log.append('E3d %d invocation(s) of %s! replaced by the arm body of %s (%s; metavariables %s)' % (
+            n, name, a.locator, status, ', '.join('$' + x for x in names)))
+    return toks, log, changed, changes
+
+
+def process_const(repo, annot_rel):
+    """Rule E4: a `const NAME: T = ..;` item of the real file (locator `<file> :: const NAME`), erasure-checked against /repo and
+    emitted VERBATIM (real tokens only) so that the functions of the unit index the real table.  Functions that depend on it name
+    the copy with `mconst=<annot path>[;..]` on their FN line: a change of the item is then a change of those functions."""
+    a = annot.load(os.path.join(CONTRACTS, 'annot', annot_rel))
+    rec = FnRecord()
+    rec.annot_path = annot_rel
+    rec.locator = a.locator
+    rec.mode = 'CONST'
+    try:
+        new_real = extract.extract(repo, a.locator)
+    except (extract.ExtractError, rtok.TokError, OSError) as e:
+        raise UnitProblem('lost item %s: %s' % (a.locator, e))
+    status, toks, changes = annot.sync(a.toks, new_real)
+    if status == 'lost':
+        raise UnitProblem('annotation anchors lost for %s' % a.locator)
+    rec.status = status
+    rec.changes = ['%s `%s` -> `%s`' % (tg, ' '.join(x[1] for x in o), ' '.join(x[1] for x in n_)) for tg, o, n_ in changes]
+    real = annot.erase(toks)
+    rec.name = real[1][1] if len(real) > 1 else None
+    rec.rules = ['E4 const item emitted verbatim']
+    return rtok.render(real), rec
+
+
 def process_fn(repo, annot_rel, opts, mode, canary, base_variants):
     a = annot.load(os.path.join(CONTRACTS, 'annot', annot_rel))
     rec = FnRecord()
@@ -280,6 +410,28 @@ def process_fn(repo, annot_rel, opts, mode, canary, base_variants):
             i += 1
         toks = out
         e3log.append('E3b metavariables ' + ', '.join('$%s -> %s' % (n, msub[n]) for n in used))
+    if opts.get('mconst'):
+        # rule E4: const items of the real file the function depends on (emitted by `//@@ CONST`): their change is a change
+        # of this function
+        for _cp in opts['mconst'].split(';'):
+            _ca = annot.load(os.path.join(CONTRACTS, 'annot', _cp))
+            try:
+                _cr = extract.extract(repo, _ca.locator)
+            except (extract.ExtractError, rtok.TokError, OSError) as e:
+                raise UnitProblem('lost item %s: %s' % (_ca.locator, e))
+            _cs, _ct, _cc = annot.sync(_ca.toks, _cr)
+            if _cs != 'clean':
+                rec.status = 'transplanted'
+                rec.changes = list(rec.changes) + ['%s (%s) `%s` -> `%s`' % (tg, _ca.locator, ' '.join(x[1] for x in o)[:200],
+                                                                          ' '.join(x[1] for x in n_)[:200]) for tg, o, n_ in _cc]
+            e3log.append('E4 depends on %s (%s)' % (_ca.locator, _cs))
+    if opts.get('minline'):
+        # rule E3d: macro_rules! invocations in the body are replaced by the macro's own annotated arm
+        toks, _il, _ich, _ichs = _e3d_inline(repo, toks, opts['minline'], variants)
+        e3log = e3log + _il
+        if _ich:
+            rec.status = 'transplanted'
+            rec.changes = list(rec.changes) + _ichs
     if opts.get('wrap'):
         sub = dict(x.split(':', 1) for x in opts['subst'].split(',')) if opts.get('subst') else {}
         toks, e3log = _e3_wrap(toks, opts['wrap'], sub, a.locator)
@@ -369,6 +521,11 @@ def build_unit(repo, unit_rel, variants=(), canary=False, word=64):
         elif cmd == 'WRAP':
             # //@@ WRAP <key> fn name(params) -> ret      (rule E3 function header, referenced by wrap=<key>)
             wraps[rest[0]] = m.group(2).split(None, 1)[1]
+        elif cmd == 'CONST':
+            text, rec = process_const(repo, rest[0])
+            recs.append(rec)
+            out.append('// ---- CONST %s  [%s]' % (rec.locator, rec.status))
+            out.append(text)
         elif cmd in ('FN', 'SIG'):
             opts = _parse_opts(rest[1:])
             if opts.get('wrap'):
